@@ -7,7 +7,7 @@
 //                   "analyze":bool, "nocopy":bool, "publicPath":string}]}
 // stdout: {"results":[{"id", "runs":[{"seq", "trace":[[module, effect]...], "errors":[{where,name,message}],
 //                                     "after":[{entry, ns, peek}], "poked":[{entry, ns, peek}]}],
-//                      "analysis":{"files":[{file, imports:[{to, path, names}], dyn:[{to, path}], exports:[names],
+//                      "analysis":{"files":[{kind: js|css, file, imports:[{to, path, names}], dyn:[{to, path}], exports:[names],
 //                                            assigns:[names], parseError}]}}]}
 //
 // Module instances must be fresh per sequence: every sequence is loaded from
@@ -143,7 +143,7 @@ function listJS(dir, rel, out) {
   for (const ent of fs.readdirSync(path.join(dir, rel), { withFileTypes: true })) {
     const r = rel ? rel + '/' + ent.name : ent.name
     if (ent.isDirectory()) listJS(dir, r, out)
-    else if (/\.(js|mjs)$/.test(ent.name)) out.push(r)
+    else if (/\.(js|mjs|css)$/.test(ent.name)) out.push(r)
   }
   return out
 }
@@ -269,7 +269,8 @@ function analyze(job) {
   }
   const out = []
   for (const file of files) {
-    const rec = { file, imports: [], dyn: [], exports: [], assigns: [], parseError: '' }
+    const rec = { kind: 'js', file, imports: [], dyn: [], exports: [], assigns: [], parseError: '' }
+    if (/\.css$/.test(file)) { rec.kind = 'css'; out.push(rec); continue } // a style sheet: a chunk that imports and exports nothing
     let ast
     try {
       ast = acorn.parse(fs.readFileSync(path.join(job.dir, file), 'utf8'), { ecmaVersion: 'latest', sourceType: 'module' })
